@@ -418,14 +418,28 @@ fn get_record_reference_sequence<'c>(
         .reference_sequence(header)
         .transpose()?
         .map(|(name, _)| name)
-        .expect("invalid reference sequence ID");
+        .ok_or_else(|| {
+            io::Error::new(io::ErrorKind::InvalidData, "missing reference sequence ID")
+        })?;
 
     let sequence = reference_sequence_repository
         .get(reference_sequence_name)
         .transpose()?
-        .expect("invalid reference sequence name");
+        .ok_or_else(|| missing_reference_sequence_error(reference_sequence_name))?;
 
     Ok(Some(ReferenceSequence::External { sequence }))
+}
+
+fn missing_reference_sequence_error(reference_sequence_name: &[u8]) -> io::Error {
+    use bstr::BStr;
+
+    io::Error::new(
+        io::ErrorKind::InvalidInput,
+        format!(
+            "missing reference sequence: {}",
+            BStr::new(reference_sequence_name)
+        ),
+    )
 }
 
 fn validate_sequence(sequence: &[u8], expected_checksum: &[u8; 16]) -> io::Result<()> {
